@@ -339,7 +339,7 @@ namespace avel {
 
         [[nodiscard]]
         AVEL_FINL Vector operator-() const {
-            return Vector{0.0} - *this;
+            return Vector{_mm512_castsi512_pd(_mm512_xor_si512(_mm512_castpd_si512(content), _mm512_set1_epi64(0x8000000000000000ull)))};
         }
 
         //=================================================
